@@ -61,6 +61,7 @@ type DemuxRun struct {
 	PostEOFBad string // a call after ErrNoMorePackets returned something else
 	Tap        *mon.RTap
 	Dmx        *astits.Demuxer
+	PacketSize int // framing used (set by callers that need offsets; 0 = 188)
 }
 
 func (r *DemuxRun) Datas() []*astits.DemuxerData {
